@@ -251,7 +251,7 @@ class Session:
         return r
 
     # --- molfile texts
-    def read(self, lines, fmt, pfx, mol=None, floats=None, eol="\n", via_file=False):
+    def read(self, lines, fmt, pfx, mol=None, floats=None, eol="\n", via_file=False, via_path=None):
         from tucan.io import graph_from_molfile_text, graph_from_file
         import textgen
         k = self._next
@@ -262,7 +262,9 @@ class Session:
             e["mol"] = mol
         text = eol.join(lines) + eol
         try:
-            if via_file:
+            if via_path is not None:
+                g = graph_from_file(via_path)           # the caller put the text there
+            elif via_file:
                 import tempfile
                 with tempfile.NamedTemporaryFile("w", suffix=".mol", delete=False, newline="") as f:
                     f.write(text)
